@@ -100,7 +100,7 @@ class DendrogramPlotter(object):
         """
 
         # Get the lines for the dendrogram
-        lines = self.get_lines(structures=structure, **kwargs)
+        lines = self.get_lines(structures=structure, subtree=subtree, **kwargs)
 
         # Add the lines to the axes
         ax.add_collection(lines)
@@ -143,7 +143,7 @@ class DendrogramPlotter(object):
         if structure is None:
             mask = self.dendrogram.data > self.dendrogram.params['min_value']
         else:
-            if type(structure) is int:
+            if isinstance(structure, (int, np.integer)):
                 structure = self.dendrogram[structure]
             mask = structure.get_mask(subtree=subtree)
             if self.dendrogram.data.ndim == 3:
@@ -187,15 +187,16 @@ class DendrogramPlotter(object):
         # Case 1: no structures are selected
         if structures is None:
             structures = list(self.dendrogram.all_structures)
-        # Case 2: one structure is selected, and subtree is True
+        # Case 2: structures are selected, given as Structure objects or as
+        # identifiers, singly or in a list; with subtree=True the whole subtree
+        # of the (first) structure is used
         else:
+            if not isinstance(structures, (list, tuple)):
+                structures = [structures]
+            structures = [self.dendrogram[s] if isinstance(s, (int, np.integer)) else s
+                          for s in structures]
             if subtree:
-                if isinstance(structures, int):
-                    structures = [structures]
-                if type(structures[0]) is int:
-                    structure = self.dendrogram[structures[0]]
-                else:
-                    structure = structures[0]
+                structure = structures[0]
                 structures = structure.descendants + [structure]
         # Case 3: subtree is False (do nothing special to `structures`)
 
